@@ -236,6 +236,92 @@ def units(w):
         return Unit(f"{file}::{func}", lambda it: ([], {}, {}), None, name=f"{file}::{func}[except clauses]", body=body, canary=False)
     U.append(host_unit("run.py", "main"))
     U.append(host_unit("repl.py", "main"))
+    # ================================================================== an error travels unchanged through every construct between the raise site and the handler
+    # every node form with children that may raise: when a child raises, the node raises that very error object and evaluates
+    # nothing afterwards ("an unmatched error continues outward unchanged", "no statement after the failing one runs").
+    # NodeBlock (the only construct that intercepts) is verified above.
+    from .common import Stubs, StubFuncs, runtime_error
+    from .c13 import make_value, install_streams
+    from .nodeforms import node_forms
+    S_, F_ = Stubs(w), StubFuncs(w)
+    EK = ["null", "true", "false", "int", "string", "list1", "set1", "map1", "object1", "func", "input"]
+
+    def erring(name, EK=EK):
+        def outcome(it, env):
+            if it.ghost.get("raised") is not None:
+                it.ghost["after"] = name
+            c = it.path.choose(len(EK) + 1)
+            if c == len(EK):
+                exc = runtime_error(w, it, V.string(it, it.fresh(name + ".errval").replace("~", "_")), name + ".err")
+                it.ghost["raised"] = exc
+                raise PyRaise(exc)
+            return make_value(V, F_, it, EK[c], it.fresh(name).replace("~", "_"))
+        return S_.node(name, outcome)
+
+    def p_transparent(it, c, o):
+        exc = it.ghost.get("raised")
+        if exc is not None:
+            it.check("post:the-error-of-a-child-leaves-the-construct-as-the-same-error-object", o.kind == "raise" and o.exc is exc)
+            it.check("post:nothing-is-evaluated-after-the-failing-child", it.ghost.get("after") is None, detail=str(it.ghost.get("after")))
+        else:
+            it.check("post:value-or-language-error", o.kind == "return" or o.exc_class == "CklRuntimeError")
+
+    def t_unit(ncls, fields, name=None, loops=None):
+        def setup(it):
+            fs = {k: (v(it) if callable(v) else v) for k, v in fields.items()}
+            fs["pos"] = V.pos(it)
+            node = Obj(nodes[ncls], fs)
+            node.fresh = False
+            return [node, real_env(w, it, {"x": V.int(it, "envx"), "y": V.int(it, "envy")})], {}, {}
+        nm = (name or f"nodes.py::{ncls}.evaluate[all kinds]").replace("all kinds", "children that raise").replace("of all kinds", "that raise")
+        return Unit(f"nodes.py::{ncls}.evaluate", setup, p_transparent, name=nm, config={"max_unroll": 12},
+                    replay=replay_prog, prepare=install_streams)
+    tbody = lambda it: erring("body", ["int", "true"])      # bodies / value expressions: a value or an error (their kind is not looked at)
+    for ncls_, fields_, name_, loops_ in node_forms(nodes, erring, tbody, S_, F_, V):
+        U.append(t_unit(ncls_, fields_, name_, loops_))
+    U.append(t_unit("NodeAssign", {"identifier": "x", "expression": lambda it: erring("v")}))
+    U.append(t_unit("NodeDef", {"identifier": "z", "expression": lambda it: erring("v"), "info": ""}))
+    U.append(t_unit("NodeReturn", {"expression": lambda it: erring("v")}))
+    def wcond(it):
+        # a condition that holds at most twice, may raise, and otherwise ends the loop
+        def outcome(it_, env):
+            if it_.ghost.get("raised") is not None:
+                it_.ghost["after"] = "c"
+            n_ = it_.ghost.get("conds", 0)
+            it_.ghost["conds"] = n_ + 1
+            c = it_.path.choose(3)
+            if c == 2:
+                exc = runtime_error(w, it_, V.string(it_, it_.fresh("c.errval").replace("~", "_")), "c.err")
+                it_.ghost["raised"] = exc
+                raise PyRaise(exc)
+            return V.TRUE if (c == 1 and n_ < 2) else V.FALSE
+        return S_.node("c", outcome)
+    U.append(t_unit("NodeWhile", {"expression": wcond, "block": tbody}))
+    U.append(t_unit("NodeSpread", {"expression": lambda it: erring("v")}))
+
+    # eval: errors of the evaluated code are not replaced (only a failing parse is reported as 'ERROR')
+    def s_eval(it):
+        f = Obj(w.import_module("ckl.functions").ns["FuncEval"], {"name": "eval", "secure": True, "info": ""})
+        return [f, V.args(it, {"s": V.string(it, "src")}, ["s"]), real_env(w, it, {}), V.pos(it, "cpos")], {}, {}
+    U.append(Unit("functions.py::FuncEval.execute", s_eval, p_transparent, name="functions.py::FuncEval.execute[evaluated code that raises]",
+                  abstractions={"parse_script": lambda it, a, k, n: erring("script")}, replay=replay_prog))
+
+    # a call that exhausts the host stack is a runtime error 'ERROR' at the call, so that enclosing handlers see it
+    def s_deep(it):
+        def beh(it_, vals):
+            it_.throw("RecursionError", "maximum recursion depth exceeded")
+        node = Obj(nodes["NodeFuncall"], {"func": S_.node("callee", F_.func("callee", ["a"], beh)), "names": PList([None]),
+                                          "args": PList([S_.node("arg", V.int(it, "a"))]), "pos": V.pos(it)})
+        return [node, real_env(w, it, {})], {}, {}
+
+    def p_deep(it, c, o):
+        it.check("post:stack-exhaustion-inside-a-call-is-a-language-error-at-the-call", o.kind == "raise" and o.exc_class == "CklRuntimeError")
+        if o.kind == "raise" and o.exc_class == "CklRuntimeError":
+            v = o.exc.fields.get("value")
+            it.check("post:its-value-is-the-string-ERROR", zs(v.fields["value"]) == z3.StringVal("ERROR") if isinstance(v, Obj) and v.cls.name == "ValueString" else False)
+    U.append(Unit("nodes.py::NodeFuncall.evaluate", s_deep, p_deep, name="nodes.py::NodeFuncall.evaluate[callee exhausts the host stack]",
+                  allowed=("CklRuntimeError", "RecursionError"), replay=replay_prog))
+
     # the parser builds a block from exactly its own statements, handlers and finally part: it never extends a block that a
     # sub-parser returned (frame condition of contracts/parserproof.py, here for the two block-building functions)
     from .parserproof import parser_units
@@ -282,11 +368,228 @@ PROGS = [
 ]
 
 
+# ---- generated nests against a reference evaluator written from the property statement
+ERRVALS = [("'x'", ("s", "x")), ("'y'", ("s", "y")), ("1", ("n", 1.0)), ("1.0", ("n", 1.0)), ("2", ("n", 2.0)), ("TRUE", ("b", True)), ("NULL", ("null",)),
+           ("[1, 2]", ("l", (("n", 1.0), ("n", 2.0)))), ("[1, 2.0]", ("l", (("n", 1.0), ("n", 2.0)))), ("<<1>>", ("set", (("n", 1.0),))),
+           ("<<<'a' => 1>>>", ("m", ((("s", "a"), ("n", 1.0)),))), ("'ERROR'", ("s", "ERROR"))]
+# runtime errors: every one of them is an error with value 'ERROR' raised at that statement (also through eval, a loop
+# over an input, a call chain and a stack exhaustion)
+RTERRS = ["undefined_name_q", "1 / 0", "[1][5]", "deep(1)", "eval('undefined_name_q')", "rethrow()"]
+WRAPS = ["{0}", "eval(\"{0}\")", "for ln in str_input('a') do {0} end", "thrower({1})", "[{0} for q in [1]]", "if TRUE then {0}"]
+
+
+class _Err(Exception):
+    def __init__(self, v):
+        self.v = v
+
+
+class _Ret(Exception):
+    def __init__(self, v):
+        self.v = v
+
+
+class _Brk(Exception):
+    pass
+
+
+class _Cnt(Exception):
+    pass
+
+
+def _gen(rnd, depth, in_loop, in_fn, counter):
+    """a statement list (skeleton: only logging statements, blocks, loops, exits)"""
+    out = []
+    for _ in range(rnd.randint(1, 3) if depth < 3 else rnd.randint(1, 2)):
+        r = rnd.random()
+        if depth > 0 and r < 0.4:
+            catches = []
+            for _c in range(rnd.randint(0, 2)):
+                cv = "all" if rnd.random() < 0.3 else rnd.choice(ERRVALS)
+                catches.append((cv, _gen(rnd, depth - 1, in_loop, in_fn, counter)))
+            fin = _gen(rnd, 0, False, False, counter) if rnd.random() < 0.6 else []
+            out.append(("blk", _gen(rnd, depth - 1, in_loop, in_fn, counter), catches, fin))
+        elif depth > 0 and r < 0.55:
+            out.append(("for", _gen(rnd, depth - 1, True, in_fn, counter)))
+        elif depth > 0 and r < 0.62:
+            out.append(("call", _gen(rnd, depth - 1, False, True, counter)))
+        elif r < 0.68 and in_loop:
+            out.append((rnd.choice(["brk", "cnt"]),))
+        elif r < 0.72 and in_fn:
+            counter[0] += 1
+            out.append(("ret", counter[0]))
+        else:
+            counter[0] += 1
+            out.append(("t", counter[0]))
+    return out
+
+
+def _leaves(stmts, path=()):
+    for i, s in enumerate(stmts):
+        if s[0] == "t":
+            yield path + (i,)
+        elif s[0] == "blk":
+            yield from _leaves(s[1], path + (i, 1))
+            for j, (cv, h) in enumerate(s[2]):
+                yield from _leaves(h, path + (i, 2, j, 1))
+            yield from _leaves(s[3], path + (i, 3))
+        elif s[0] in ("for", "call"):
+            yield from _leaves(s[1], path + (i, 1))
+
+
+def _replace(stmts, path, new):
+    if len(path) == 1:
+        return stmts[:path[0]] + [new] + stmts[path[0] + 1:]
+    s = stmts[path[0]]
+    if s[0] == "blk":
+        if path[1] == 1:
+            s2 = ("blk", _replace(s[1], path[2:], new), s[2], s[3])
+        elif path[1] == 3:
+            s2 = ("blk", s[1], s[2], _replace(s[3], path[2:], new))
+        else:
+            j = path[2]
+            cs = list(s[2])
+            cs[j] = (cs[j][0], _replace(cs[j][1], path[4:], new))
+            s2 = ("blk", s[1], cs, s[3])
+    else:
+        s2 = (s[0], _replace(s[1], path[2:], new))
+    return stmts[:path[0]] + [s2] + stmts[path[0] + 1:]
+
+
+def _render(stmts, fns):
+    parts = []
+    for s in stmts:
+        if s[0] == "t":
+            parts.append(f"t({s[1]})")
+        elif s[0] == "err":
+            parts.append(s[1])
+        elif s[0] == "ret":
+            parts.append(f"return t({s[1]})")
+        elif s[0] == "brk":
+            parts.append("break")
+        elif s[0] == "cnt":
+            parts.append("continue")
+        elif s[0] == "for":
+            parts.append("for i in [1, 2] do " + _render(s[1], fns) + " end")
+        elif s[0] == "call":
+            name = f"g{len(fns)}"
+            fns.append(None)
+            fns[int(name[1:])] = f"def {name}() do " + _render(s[1], fns) + " end"
+            parts.append(f"{name}()")
+        else:
+            txt = "do " + _render(s[1], fns)
+            for cv, h in s[2]:
+                txt += " catch " + ("all" if cv == "all" else cv[0]) + " do " + _render(h, fns) + "; end"
+            if s[3]:
+                txt += " finally " + _render(s[3], fns)
+            parts.append(txt + " end")
+    return "; ".join(parts)
+
+
+def _run_ref(stmts, log):
+    val = None
+    for s in stmts:
+        if s[0] == "t":
+            log.append(s[1])
+            val = s[1]
+        elif s[0] == "err":
+            raise _Err(s[2])
+        elif s[0] == "ret":
+            log.append(s[1])
+            raise _Ret(s[1])
+        elif s[0] == "brk":
+            raise _Brk()
+        elif s[0] == "cnt":
+            raise _Cnt()
+        elif s[0] == "for":
+            for _i in (1, 2):
+                try:
+                    _run_ref(s[1], log)
+                except _Brk:
+                    break
+                except _Cnt:
+                    continue
+            val = None
+        elif s[0] == "call":
+            try:
+                v = _run_ref(s[1], log)
+            except _Ret as r:
+                v = r.v
+            val = v
+        else:
+            try:
+                try:
+                    val = _run_ref(s[1], log)
+                except _Err as e:
+                    for cv, h in s[2]:
+                        if cv == "all" or cv[1] == e.v:
+                            val = _run_ref(h, log)
+                            break
+                    else:
+                        raise
+            finally:
+                _run_ref(s[3], log)
+    return val
+
+
+def nest_programs(tier, seed):
+    import random
+    rnd = random.Random(seed * 7919 + 5)
+    out = []
+    nskel = 6000 if tier == "thorough" else 400
+    pre = ("def l = []; def t(k) do append(l, k); k end; def thrower(v) do error v end; def deep(n) deep(n + 1) + 1; "
+           "def rethrow() do undefined_name_q catch 'nomatch' 0 end; ")
+    for _ in range(nskel):
+        counter = [0]
+        skel = [("call", _gen(rnd, 4, False, True, counter))]
+        leaves = list(_leaves(skel))
+        if len(leaves) > 24:
+            continue
+        variants = [skel]
+        for lf in leaves:
+            picks = rnd.sample(ERRVALS, 3 if tier == "quick" else len(ERRVALS))
+            for src, key in picks:
+                wrap = rnd.choice(WRAPS)
+                txt = wrap.format(f"error {src}", src).replace("\"error '", "\"error \\'").replace("'\")", "\\'\")") if "eval" in wrap and "'" in src else wrap.format(f"error {src}", src)
+                variants.append(_replace(skel, lf, ("err", txt, key)))
+            for rt in (rnd.sample(RTERRS, 2) if tier == "quick" else RTERRS):
+                variants.append(_replace(skel, lf, ("err", rt, ("s", "ERROR"))))
+        for prog in variants:
+            fns = []
+            body = _render(prog, fns)
+            src = pre + "; ".join(f for f in fns) + "; def r = do " + body + "; 'done' catch all 'uncaught' end; [r, l]"
+            log = []
+            try:
+                _run_ref(prog, log)
+                res = "'done'"
+            except _Err as e:
+                res = "'uncaught'"
+            except (_Ret, _Brk, _Cnt):
+                continue
+            out.append((src, f"[{res}, [{', '.join(map(str, log))}]]"))
+    return out
+
+
 def bounded(tier, seed):
     import time
     t0 = time.time()
     interp, errors = _interp()
     fails, ev = [], 0
+    import sys
+    sys.setrecursionlimit(max(sys.getrecursionlimit(), 3000))
+    nests = nest_programs(tier, seed)
+    shared = None
+    for src, exp in nests:
+        ev += 1
+        if ev % 500 == 1:
+            shared = interp.Interpreter(True, True)      # every program defines all it uses; a fresh session every 500 programs
+        try:
+            obs = str(shared.interpret(src, "-"))
+        except errors.CklRuntimeError as e:
+            obs = "RT:" + str(e.value)
+        except Exception as e:
+            obs = repr(e)
+        if obs != exp and len(fails) < 3:
+            fails.append({"id": "bounded:generated-nest-against-the-reference-evaluator", "input": src, "observed": obs, "expected": exp})
     for src, exp in PROGS:
         ev += 1
         try:
@@ -297,7 +600,7 @@ def bounded(tier, seed):
             obs = repr(e)
         if obs != exp:
             fails.append({"id": "bounded:catch-finally-program", "input": src, "observed": obs, "expected": exp})
-    return [BoundedResult("catch/finally programs on the real interpreter", f"{ev} programs (nested blocks, functions, loops, every exit kind)",
+    return [BoundedResult("catch/finally programs on the real interpreter", f"{ev} programs ({len(nests)} generated nests of depth <= 4 with an error of every kind injected at every statement position; fixed programs for nested blocks, functions, loops, every exit kind)",
                           ev, ev, fails[:3], [{"src": PROGS[0][0]}], "cross-check of the proof part", time.time() - t0)]
 
 
